@@ -129,6 +129,11 @@ func runC06(t *testing.T, seed uint64, m *Mask) *Report {
 			codec := byte('j')
 			if proto == "thrift-struct" {
 				body, codec = p, 't'
+			} else if !clientVictim && bigData == 0 && e.Gen.Chance(0.25) {
+				// a byte-stream body for the handler that takes raw bytes: any byte value may occur
+				raw := make([]byte, 1+e.Gen.Intn(60))
+				e.Gen.Bytes(raw)
+				method, codec, body = rt.Bytes, 's', append([]byte(p.Tag+";"), raw...)
 			}
 			var pipe []byte
 			if proto != "thrift-struct" && proto != "http" && bigData == 0 && e.Gen.Chance(0.3) {
